@@ -12,7 +12,7 @@ git -C $WT apply $SRC/patch.diff
 (cd $WT && go build ./... 2>&1 | tail -3) > /tmp/seed_build.txt; BUILD=$?
 TESTS=$(cd $WT && go test -count=1 ./... 2>&1 | grep -v "no test files" | grep -vc "^ok")
 cp $WT/go.sum $SRC/demo/go.sum 2>/dev/null
-WITH=$(cd $SRC/demo && timeout 600 go run . 2>&1 | tail -40)
+WITH=$(cd $SRC/demo && timeout 600 go run . 2>&1 | grep -a -m3 -E "FAIL|PASS")
 git -C $WT checkout -q -- . && git -C $WT clean -fdq
 WITHOUT=$(cd $SRC/demo && timeout 600 go run . 2>&1 | tail -5)
 ok=1
